@@ -131,6 +131,9 @@ func runC05(s *simrt.Sim) {
 			for i := 0; i < nrel; i++ {
 				t.ver++
 				d := h.mutate(o)
+				for k := tp.Draw(3, "reload.compound"); k > 0; k-- {
+					d += " + " + h.mutate(o) // one reload may carry several changes
+				}
 				if err := t.reload(n); err != nil {
 					s.FailK("C05.reload", "reload-of-valid-config-failed", "reload (%s) failed: %v", d, err)
 					return
